@@ -9,7 +9,7 @@
 Environment: VERIF_REPO (default /repo), VERIF_TIER, VERIF_SEED (recorded; nothing is sampled),
              VERIF_WORKERS (default 16), VERIF_DEADLINE (seconds, global per check).
 """
-import sys, os, json, hashlib, subprocess, time, shutil, glob, re, argparse, tempfile
+import sys, os, fnmatch, json, hashlib, subprocess, time, shutil, glob, re, argparse, tempfile
 from concurrent.futures import ThreadPoolExecutor
 
 VERIF = os.path.dirname(os.path.abspath(__file__))
@@ -176,8 +176,13 @@ class Report:
         shutil.rmtree(rdir, ignore_errors=True)
         new, seen_known = [], []
         for sig, f in sorted(self.findings.items()):
-            if sig in known_sigs:
-                seen_known.append((sig, known_sigs[sig], f))
+            k = known_sigs.get(sig)
+            if k is None:
+                # a finding may be identified by its input alone: 'signature_glob' leaves the code-location part open
+                # (the innermost function of a hang is where the tree happens to loop; a refactoring renames it, the failing input stays)
+                k = next((c for c in known if c.get("signature_glob") and fnmatch.fnmatchcase(sig, c["signature_glob"])), None)
+            if k is not None:
+                seen_known.append((sig, k, f))
             else:
                 new.append((sig, f))
         for sig, k, f in seen_known:
